@@ -263,14 +263,21 @@ void RateDecomposer::decompose(expression_t expr, bool inforall)
         }
     } else {
         assert(expr.get_type().is(INVARIANT_WR));
-        assert(expr.get_kind() == FORALL);
-        // Enter the forall to look for clock rates but don't
-        // record them, rather the forall expression.
-        decompose(expr[1], true);
-        invariant = invariant.empty()
-                        ? expr
-                        : invariant = expression_t::create_binary(AND, invariant, expr, expr.get_position(),
-                                                                  type_t::create_primitive(INVARIANT_WR));
+        // Enter the forall (or, for a disjunction, every operand) to look
+        // for clock rates but don't record them, rather the whole
+        // expression, once: at the outermost level.
+        if (expr.get_kind() == FORALL) {
+            decompose(expr[1], true);
+        } else {
+            for (uint32_t i = 0; i < expr.get_size(); ++i)
+                decompose(expr[i], true);
+        }
+        if (!inforall) {
+            invariant = invariant.empty()
+                            ? expr
+                            : invariant = expression_t::create_binary(AND, invariant, expr, expr.get_position(),
+                                                                      type_t::create_primitive(INVARIANT_WR));
+        }
     }
 }
 
